@@ -156,7 +156,7 @@ HCancelLookup ==
          v2 == E.found /\ E.delivered > 0 /\ (E.target # E.s \/ ~E.keys_ok)  \* packet went elsewhere
          v3 == ~E.found /\ E.delivered > 0                         \* nobody to cancel, yet a server was contacted
          v4 == ~E.found /\ cmap[c] # NONE                          \* mapped, but the lookup found nothing
-         v5 == E.found /\ E.delivered = 0                          \* named, but never sent
+         v5 == E.found /\ E.delivered = 0 /\ E.variant # "listener_down"   \* named, but never sent (a refused connect drops it)
      IN /\ IF v1 THEN Report("cancel_wrong_target", [client |-> c, target |-> E.s, holds |-> held[c]]) ELSE TRUE
         /\ IF v2 THEN Report("cancel_misdirected", [client |-> c, looked_up |-> E.s, reached |-> E.target,
                                                     keys_ok |-> E.keys_ok]) ELSE TRUE
@@ -166,6 +166,19 @@ HCancelLookup ==
         /\ Mark((IF v1 THEN {"cancel_wrong_target"} ELSE {}) \cup (IF v2 THEN {"cancel_misdirected"} ELSE {})
                 \cup (IF v3 THEN {"cancel_without_session"} ELSE {}) \cup (IF v4 THEN {"cancel_lost"} ELSE {})
                 \cup (IF v5 THEN {"cancel_not_sent"} ELSE {}))
+  /\ UNCHANGED <<vars, sc, psize, txm, owner, txconn>>
+
+\* A CancelRequest reached a server outside every cancel attempt of the harness.  The design never does that: a request
+\* is forwarded at once or dropped.  After an attempt whose connect was refused (listener down), a later delivery means
+\* the pooler kept the looked-up target (deviation cancel_retried_later): it is a violation once that session has served
+\* another client since - the requester's key then reached a connection it no longer holds.
+HCancelStray ==
+  /\ E.ev = "cancel_stray"
+  /\ LET v1 == E.origin = "none"
+         v2 == E.origin # "none" /\ E.used_by_other
+     IN /\ IF v1 THEN Report("cancel_unsolicited", [target |-> E.target]) ELSE TRUE
+        /\ IF v2 THEN Report("cancel_after_release", [client |-> E.c, target |-> E.target]) ELSE TRUE
+        /\ Mark((IF v1 THEN {"cancel_unsolicited"} ELSE {}) \cup (IF v2 THEN {"cancel_after_release"} ELSE {}))
   /\ UNCHANGED <<vars, sc, psize, txm, owner, txconn>>
 
 \* End of a scenario at a quiescent point: every client has left.
@@ -237,10 +250,10 @@ BResult ==
 
 Step ==
   /\ l <= Len(Rec)
-  /\ l' = l + 1 /\ vanished' = vanished   \* the trace records what happened; who is gone is known from client_drop / closing
+  /\ l' = l + 1 /\ vanished' = vanished /\ late' = late   \* the trace records what happened; who is gone is known from client_drop / closing
   /\ \/ Reset
      \/ HServerConnect \/ HCheckout \/ HClaim \/ HMapRemove \/ HPutBack \/ HServerDrop
-     \/ HCancelLookup \/ HEnd \/ HSettle
+     \/ HCancelLookup \/ HCancelStray \/ HEnd \/ HSettle
      \/ BExec \/ BClosing \/ BSessionEnd \/ BResult
 
 TSpec == TInit /\ [][Step]_allvars
